@@ -84,7 +84,10 @@ def family(kind, w, seed, nangles=1):
             cases.append(([np.full((1,), v) for v in ang], [np.full((1,), v) for v in xs]))
     except (KeyError, TypeError, ValueError):
         pass
-    for shape, ashape in [((4,), (4,)), ((3, 4), (4,)), ((3, 4), (3, 4)), ((3, 4), (1,)), ((2,), ())]:
+    # "any broadcastable shape": trailing-axis broadcasting also on SQUARE data (the leading and the trailing axis have
+    # the same length: a per-row reading of 1-D angles would go unnoticed elsewhere), column angles, higher ranks
+    for shape, ashape in [((4,), (4,)), ((3, 4), (4,)), ((3, 4), (3, 4)), ((3, 4), (1,)), ((2,), ()), ((4, 4), (4,)),
+                          ((3, 3), (3, 1)), ((2, 3, 3), (3,)), ((3, 2, 3), (3,))]:
         for _ in range(2):
             ang = [rng.uniform(-6.5, 6.5, ashape) for _ in range(nangles)]
             xs = [rng.standard_normal(shape) for _ in range(n)]
